@@ -29,7 +29,7 @@ class BaseGotranODECodePrinter(StrPrinter):
     def _print_re(self, expr):
         # All variables are real numbers, but sympy may introduce the real part,
         # e.g. abs(exp(asin(x))) -> exp(re(asin(x)))
-        return self._print(expr.args[0])
+        return f"({self._print(expr.args[0])})"
 
     def _print_im(self, expr):
         return self._print(sympy.S.Zero)
